@@ -196,6 +196,8 @@ func init() {
 		}
 		runs = append(runs, runsOf(lifeRuns(tier), o, MonFlags{})...)
 		runs = append(runs, RunSpec{Name: "bind-ops-time-jumps", Sc: timeJumps(scBind(defaultParams(), bindOpsSmall(), []Template{tSlash2}, []string{"bad"}, d, b, m-1)), Oracles: o})
+		// a restart while requests are open, with a slash fraction that would show (0.5)
+		runs = append(runs, RunSpec{Name: "life-restart-slash-half", Sc: restartable(withFunds(scLife(defaultParams(), []Template{tOne2, tLong}, AlphaOpts{RespKinds: []string{"ok"}}, d-1, b, m), 40, 5)), Oracles: o})
 		// a provider answers a request it has already answered (refused), while the other provider's request stays open
 		runs = append(runs, RunSpec{Name: "life-second-response", Sc: withFunds(scLife(paramSet("0.1", "0.001"), []Template{tOne2, tRep2}, AlphaOpts{RespKinds: []string{"ok"}, RespWrong: true}, d-1, b, m), 40, 5), Oracles: o})
 		// slash fraction exactly 1: one failure takes the whole deposit
